@@ -288,14 +288,21 @@ func c03Denorm(env *core.Env, k int) core.CaseResult {
 	return res
 }
 
-func c03NumCases(env *core.Env) int { return c02NumCases(env) + c03DenormCases }
+func c03NumCases(env *core.Env) int { return c02NumCases(env) + c09TwinWorlds + c03DenormCases }
 
 func c03Run(env *core.Env, idx int) core.CaseResult {
 	var res core.CaseResult
-	if idx >= c02NumCases(env) {
-		return c03Denorm(env, idx-c02NumCases(env))
+	if idx >= c02NumCases(env)+c09TwinWorlds {
+		return c03Denorm(env, idx-c02NumCases(env)-c09TwinWorlds)
 	}
-	w, _, rng := worldCase(env, "C03", idx)
+	var w *gen.World
+	var rng *rand.Rand
+	if idx >= c02NumCases(env) {
+		// constructed worlds: same text in two directories, same-text chains, long chains
+		w, rng = twinTextWorld(idx-c02NumCases(env)), core.Rng(0, "C03/constructed", idx)
+	} else {
+		w, _, rng = worldCase(env, "C03", idx)
+	}
 	o := expandOpts{Absolute: rng.Intn(2) == 0}
 	in := oworld(w)
 	starts := oracle.SpecStarts(in, w.Root, true)
